@@ -33,9 +33,13 @@ access(all) contract World {
         access(all) var xs: [Int]
         access(all) var m: {String: Int}
         access(all) var kids: [S]
-        init(_ a: Int, _ xs: [Int], _ m: {String: Int}, _ kids: [S]) {
-            self.a = a; self.xs = xs; self.m = m; self.kids = kids
+        access(all) var o: String?
+        access(all) var oa: [Int]?
+        init(_ a: Int, _ xs: [Int], _ m: {String: Int}, _ kids: [S], _ o: String?, _ oa: [Int]?) {
+            self.a = a; self.xs = xs; self.m = m; self.kids = kids; self.o = o; self.oa = oa
         }
+        access(all) fun setO(_ o: String?) { self.o = o }
+        access(all) fun pushOA(_ n: Int) { if self.oa == nil { self.oa = [n] } else { self.oa!.append(n) } }
         access(all) fun tag(): String { return "S" }
         access(all) fun setA(_ a: Int) { self.a = a }
         access(all) fun push(_ n: Int) { self.xs.append(n) }
@@ -145,12 +149,14 @@ access(all) contract World {
         return <- r
     }
     access(all) fun makeV(_ bal: Int): @V { return <- create V(bal) }
-    access(all) fun mkS(_ a: Int, _ xs: [Int], _ m: {String: Int}, _ kids: [S]): S { return S(a, xs, m, kids) }
+    access(all) fun mkS(_ a: Int, _ xs: [Int], _ m: {String: Int}, _ kids: [S], _ o: String?, _ oa: [Int]?): S { return S(a, xs, m, kids, o, oa) }
     access(all) fun idS(_ s: S): S { return s }
     access(all) fun cloneS(_ r: &S): S {
         let ks: [S] = []
         for k in r.kids { ks.append(self.cloneS(k)) }
-        return S(r.a, *r.xs, *r.m, ks)
+        var oa: [Int]? = nil
+        if let x = r.oa { oa = *x }
+        return S(r.a, *r.xs, *r.m, ks, r.o, oa)
     }
     access(all) fun idArr(_ s: [S]): [S] { return s }
     access(all) fun idAny(_ s: AnyStruct): AnyStruct { return s }
@@ -160,7 +166,7 @@ access(all) contract World {
     access(all) fun fail(_ m: String) { panic(m) }
     access(all) fun rich(_ n: Int) {
         emit Rich(a: n, b: n.toString(), c: [1, 2, UInt8(n % 200)], d: {"k": n}, e: 0x1, f: n % 2 == 0 ? n : nil, g: Type<@R>(), h: /storage/p,
-                  i: S(n, [n], {}, []), k: 1.5, l: [S(1, [], {}, [])], m: n > 3, n: "x")
+                  i: S(n, [n], {}, [], nil, nil), k: 1.5, l: [S(1, [], {}, [], "z", [1])], m: n > 3, n: "x")
     }
 
     init() { self.counter = 0 }
@@ -349,7 +355,8 @@ func VS(a int64, xs []int64, m map[string]int64, kids ...*Val) *Val {
 		mv.Keys = append(mv.Keys, VStr(k))
 		mv.Vals = append(mv.Vals, VInt(m[k]))
 	}
-	return &Val{T: TS, F: map[string]*Val{"a": VInt(a), "xs": xv, "m": mv, "kids": VArr(TArr(TS), kids...)}}
+	return &Val{T: TS, F: map[string]*Val{"a": VInt(a), "xs": xv, "m": mv, "kids": VArr(TArr(TS), kids...),
+		"o": VNil(TOpt(TString)), "oa": VNil(TOpt(TArr(TInt)))}}
 }
 
 func (v *Val) Clone() *Val {
@@ -414,7 +421,7 @@ func (v *Val) DictRemove(k *Val) (old *Val) {
 }
 
 var fieldOrder = map[string][]string{
-	"S": {"a", "xs", "m", "kids"},
+	"S": {"a", "xs", "m", "kids", "o", "oa"},
 }
 
 // Canon renders the model value exactly as canon.go renders the exported cadence value.
@@ -559,7 +566,7 @@ func (v *Val) Lit() string {
 		}
 		return "(" + v.Opt.Lit() + " as " + v.T.Src() + ")"
 	case "S":
-		return fmt.Sprintf("World.mkS(%s, %s, %s, %s)", v.F["a"].Lit(), v.F["xs"].Lit(), v.F["m"].Lit(), v.F["kids"].Lit())
+		return fmt.Sprintf("World.mkS(%s, %s, %s, %s, %s, %s)", v.F["a"].Lit(), v.F["xs"].Lit(), v.F["m"].Lit(), v.F["kids"].Lit(), v.F["o"].Lit(), v.F["oa"].Lit())
 	case "E":
 		return fmt.Sprintf("World.E(rawValue: %d)!", v.I)
 	}
@@ -647,7 +654,7 @@ var obsTypes = []*Ty{
 	TInt, TString, TBool, TU64, TU8, TS, TSnap,
 	TArr(TInt), TArr(TString), TArr(TS), TArr(TArr(TInt)), TArr(TBool), TArr(TOpt(TInt)), TArr(TPath), TArr(TU64),
 	TDict(TString, TInt), TDict(TInt, TString), TDict(TString, TArr(TInt)), TDict(TString, TS),
-	TCArr(TInt, 3),
+	TCArr(TInt, 3), TArr(TOpt(TString)), TArr(TOpt(TArr(TInt))),
 }
 
 func mangle(t *Ty) string {
